@@ -15,6 +15,20 @@ use {
 
 pub struct Format<'a, N: Node>(pub &'a N);
 
+/// A TPTP functor is a lower word (it starts with a lower-case letter) or a single-quoted atom.
+/// Names of predicates, symbolic constants and placeholders may start with an underscore; those are quoted.
+pub struct Functor<'a>(pub &'a str);
+
+impl Display for Functor<'_> {
+    fn fmt(&self, f: &mut Formatter<'_>) -> fmt::Result {
+        if self.0.starts_with(|c: char| c.is_ascii_lowercase()) {
+            write!(f, "{}", self.0)
+        } else {
+            write!(f, "'{}'", self.0)
+        }
+    }
+}
+
 impl Display for Format<'_, UnaryOperator> {
     fn fmt(&self, f: &mut Formatter<'_>) -> fmt::Result {
         match self.0 {
@@ -47,7 +61,7 @@ impl Display for Format<'_, IntegerTerm> {
                 Ok(())
             }
             IntegerTerm::Variable(v) => write!(f, "{v}_i"),
-            IntegerTerm::FunctionConstant(c) => write!(f, "{c}_i"),
+            IntegerTerm::FunctionConstant(c) => write!(f, "{}", Functor(&format!("{c}_i"))),
             IntegerTerm::UnaryOperation { op, arg } => {
                 let op = Format(op);
                 let arg = Format(arg.as_ref());
@@ -66,8 +80,8 @@ impl Display for Format<'_, IntegerTerm> {
 impl Display for Format<'_, SymbolicTerm> {
     fn fmt(&self, f: &mut Formatter<'_>) -> fmt::Result {
         match self.0 {
-            SymbolicTerm::Symbol(s) => write!(f, "{s}"),
-            SymbolicTerm::FunctionConstant(c) => write!(f, "{c}_s"),
+            SymbolicTerm::Symbol(s) => write!(f, "{}", Functor(s)),
+            SymbolicTerm::FunctionConstant(c) => write!(f, "{}", Functor(&format!("{c}_s"))),
             SymbolicTerm::Variable(v) => write!(f, "{v}_s"),
         }
     }
@@ -78,7 +92,7 @@ impl Display for Format<'_, GeneralTerm> {
         match self.0 {
             GeneralTerm::Infimum => write!(f, "c__infimum__"),
             GeneralTerm::Supremum => write!(f, "c__supremum__"),
-            GeneralTerm::FunctionConstant(c) => write!(f, "{c}_g"),
+            GeneralTerm::FunctionConstant(c) => write!(f, "{}", Functor(&format!("{c}_g"))),
             GeneralTerm::Variable(v) => write!(f, "{v}_g"),
             GeneralTerm::IntegerTerm(t) => write!(f, "f__integer__({})", Format(t)),
             GeneralTerm::SymbolicTerm(t) => write!(f, "f__symbolic__({})", Format(t)),
@@ -91,7 +105,7 @@ impl Display for Format<'_, Atom> {
         let predicate = &self.0.predicate_symbol;
         let terms = &self.0.terms;
 
-        write!(f, "{predicate}")?;
+        write!(f, "{}", Functor(predicate))?;
 
         if !terms.is_empty() {
             let mut iter = terms.iter().map(Format);
@@ -206,9 +220,9 @@ impl Display for Format<'_, FunctionConstant> {
         let sort = &self.0.sort;
 
         match sort {
-            Sort::General => write!(f, "{name}_g"),
-            Sort::Integer => write!(f, "{name}_i"),
-            Sort::Symbol => write!(f, "{name}_s"),
+            Sort::General => write!(f, "{}", Functor(&format!("{name}_g"))),
+            Sort::Integer => write!(f, "{}", Functor(&format!("{name}_i"))),
+            Sort::Symbol => write!(f, "{}", Functor(&format!("{name}_s"))),
         }
     }
 }
